@@ -115,6 +115,8 @@ def expr(e, case, sp, lang='py'):
         return 'max([%s, %s])' % (X(1), X(2))
     if k == 'bsum':
         return 'sum([%s, %s])' % (X(1), X(2))
+    if k == 'udf':
+        return 'udf1(%s)' % X(1)
     if k == 'poison':
         bad = pystr(e[2])
         if py:
@@ -160,6 +162,10 @@ def item(it, case, sp, lang, first):
         if it[1] == 'COUNT' and it[2] == ['int', 1]:
             return f + sp.pick(['(1)', '(*)', '( * )'])
         return '%s(%s)' % (f, expr(it[2], case, sp, lang))
+    if k == 'aggplus':
+        return '%s(%s) + 1' % (sp.pick(AGG_SPELL[it[1]][:2]), expr(it[2], case, sp, lang))
+    if k == 'aggattr':
+        return '%s(%s).strip()' % (sp.pick(AGG_SPELL[it[1]][:2]), expr(it[2], case, sp, lang)) if lang == 'py' else '%s(%s).trim()' % (sp.pick(AGG_SPELL[it[1]][:2]), expr(it[2], case, sp, lang))
     if k == 'as':
         return '%s %s %s' % (item(it[1], case, sp, lang, first), sp.pick(['as', 'AS']), it[2])
     raise ValueError(it)
@@ -428,8 +434,9 @@ def run_case_py(mods, case, query_text, endless_cap=0):
     reg = Registry(B, hdrB, events) if case['q']['join'] != 'none' else None
     warnings = []
     obs = {'err': None}
+    init = {'def': 'def udf1(x):\n    return x + "u"', 'raise': 'raise ValueError("init failed")'}.get(case['q'].get('init', ''), '')
     try:
-        eng.query(query_text, it, wr, warnings, reg)
+        eng.query(query_text, it, wr, warnings, reg, user_init_code=init)
     except Exception as e:  # noqa
         obs['err'] = project_error(eng, e)
     obs['rows'] = [[project_value(c) for c in r] for r in wr.rows]
